@@ -24,6 +24,7 @@ import (
 	"fmt"
 	"io"
 	"os"
+	"os/exec"
 	"path/filepath"
 	"runtime"
 	"sort"
@@ -636,7 +637,7 @@ func (h *c36Store) runConcurrent(cs c36Case, o *c36Opened, obs *c36Obs, trace *[
 	for _, a := range all {
 		if a.err != nil {
 			sig := "concurrent-reader-failed-" + c36ErrClass(a.err)
-			if doubleCloseBefore(a.end) && errors.Is(a.err, sql.ErrTxDone) {
+			if doubleCloseBefore(a.end) {
 				sig = "double-close-releases-early"
 			}
 			return div(sig, fmt.Sprintf("reader %d returned %v on %s while its peers were being closed concurrently", a.r, a.err, a.e)), nil
@@ -765,7 +766,7 @@ func scriptsString(s [][]string) string {
 
 func runC36(tier, replay string) {
 	r := vkit.Begin("C36", "exploration", tier)
-	r.SetRule("a case = (mode, reader count, global event sequence); modes: multi-range GetObject on a metadata storage over the SQL part store (readers bound to the read transaction), the same on a filesystem part store (tx-free, contrast), and database.WithTxReadClosers with fake readers that touch the transaction on every Read. For 1-2 readers ALL interleavings of ALL per-reader scripts {" + scriptsString(c36ScriptsFull) + "} are run, for 3 readers all interleavings of the scripts {" + scriptsString(c36Scripts3) + "} (thorough: plus rs·ra·c for the direct WithTxReadClosers mode); 4 readers are sampled from the full script set; thorough adds goroutine-per-reader runs. distinct = distinct (mode, event sequence[, observed concurrent order])")
+	r.SetRule("a case = (mode, reader count, global event sequence); modes: multi-range GetObject on a metadata storage over the SQL part store (readers bound to the read transaction), the same on a filesystem part store (tx-free, contrast), and database.WithTxReadClosers with fake readers that touch the transaction on every Read. For 1-2 readers ALL interleavings of ALL per-reader scripts {" + scriptsString(c36ScriptsFull) + "} are run, for 3 readers all interleavings of the scripts {" + scriptsString(c36Scripts3) + "} (thorough: plus rs·ra·c); 4 readers are sampled from the full script set; thorough adds goroutine-per-reader runs (3000 in-process + 600 in a race-detector child). distinct = distinct (mode, event sequence[, observed concurrent order])")
 	r.Assume("the liveness of the transaction is read from the *sql.Tx itself (SELECT 1 -> sql.ErrTxDone) through a recording database.Database spliced below the storage; database/sql is trusted to report ErrTxDone exactly for finalized transactions")
 	r.Assume("rs reads 40% of the reader's slice, ra reads to EOF; reads on an already closed reader are not generated (the statement does not cover them)")
 
@@ -904,12 +905,6 @@ func runC36(tier, replay string) {
 		}
 		for _, mode := range []string{"getobject-sql", "direct"} {
 			sc := scripts
-			if n == 3 && mode == "getobject-sql" {
-				// the storage-level run keeps the 5-script set in both tiers (thorough runs under
-				// the race detector, where a GetObject costs several ms); the larger set is
-				// enumerated against WithTxReadClosers directly
-				sc = c36Scripts3
-			}
 			seqs := c36Enumerate(n, sc)
 			for _, ev := range seqs {
 				exec(c36Case{Mode: mode, Readers: n, Events: ev})
@@ -918,13 +913,12 @@ func runC36(tier, replay string) {
 		}
 	}
 	r.SetExtra("exhaustive_block", map[string]any{
-		"exhaustive":       true,
-		"what":             "all interleavings of all per-reader script assignments, every reader closed at least once at the end",
-		"scripts_1_2":      scriptsString(c36ScriptsFull),
-		"scripts_3":        scriptsString(c36Scripts3),
-		"scripts_3_direct": scriptsString(scripts3),
-		"sequences":        exh,
-		"state_checks":     "transaction liveness + release-hook count after every event",
+		"exhaustive":   true,
+		"what":         "all interleavings of all per-reader script assignments, every reader closed at least once at the end",
+		"scripts_1_2":  scriptsString(c36ScriptsFull),
+		"scripts_3":    scriptsString(scripts3),
+		"sequences":    exh,
+		"state_checks": "transaction liveness + release-hook count after every event",
 	})
 	// (2) direct: fn error / no readers / failing inner Close
 	exec(c36Case{Mode: "direct", Readers: 0})
@@ -951,25 +945,17 @@ func runC36(tier, replay string) {
 		exec(c36Case{Mode: mode, Readers: 4, Events: c36Sample(rg, 4, c36ScriptsFull)})
 	}
 	r.Count("four_reader_samples", int64(n4))
-	// (5) thorough: goroutine per reader (race build)
+	// (5) thorough: goroutine per reader; behavioural oracle in-process, plus a
+	// smaller block in a race-detector child (this parent is a normal build: the
+	// enumerated blocks gain nothing from -race and run ~100x slower under it)
 	if r.Thorough() {
-		noCA := [][]string{{"c"}, {"rs", "c"}, {"ra", "c"}, {"rs", "ra", "c"}}
-		for i := 0; i < 2000; i++ {
-			rg := rng.Fork(fmt.Sprintf("conc-%d", i))
-			scripts := c36ScriptsFull
-			if i%2 == 0 {
-				scripts = noCA
-			}
-			n := 2 + rg.Intn(3)
-			mode := "getobject-sql"
-			if i%5 == 4 {
-				mode = "direct"
-			}
-			exec(c36Case{Mode: mode, Readers: n, Events: c36Sample(rg, n, scripts), Concurrent: true, Seed: rg.Uint64()})
+		for _, cs := range c36ConcCases(rng, 3000, "conc") {
+			exec(cs)
 		}
 		if r.Counter("concurrent_cases_with_overlap") < 100 {
 			r.Inconclusive(fmt.Sprintf("only %d concurrent cases observed overlapping reader events", r.Counter("concurrent_cases_with_overlap")))
 		}
+		c36RaceChild(r, rng, failuresBySig)
 	}
 
 	for k, v := range obs.events {
@@ -990,4 +976,193 @@ func runC36(tier, replay string) {
 	sqlStore.close()
 	fsStore.close()
 	r.Finish()
+}
+
+// c36ConcCases generates goroutine-per-reader cases; every other case is free
+// of repeated closes so that the known double-Close finding cannot mask it.
+func c36ConcCases(rng *vkit.Rand, count int, label string) []c36Case {
+	noCA := [][]string{{"c"}, {"rs", "c"}, {"ra", "c"}, {"rs", "ra", "c"}}
+	var out []c36Case
+	for i := 0; i < count; i++ {
+		rg := rng.Fork(fmt.Sprintf("%s-%d", label, i))
+		scripts := c36ScriptsFull
+		if i%2 == 0 {
+			scripts = noCA
+		}
+		n := 2 + rg.Intn(3)
+		mode := "getobject-sql"
+		if i%5 == 4 {
+			mode = "direct"
+		}
+		out = append(out, c36Case{Mode: mode, Readers: n, Events: c36Sample(rg, n, scripts), Concurrent: true, Seed: rg.Uint64()})
+	}
+	return out
+}
+
+type c36ConcSpec struct {
+	Seed    uint64 `json:"seed"`
+	N       int    `json:"n"`
+	Dir     string `json:"dir"`
+	OutPath string `json:"out_path"`
+}
+
+type c36ConcFinding struct {
+	Case c36Case        `json:"case"`
+	Div  *c36Divergence `json:"divergence"`
+}
+
+type c36ConcOut struct {
+	Cases       int              `json:"cases"`
+	WithOverlap int              `json:"with_overlap"`
+	Orders      int              `json:"distinct_orders"`
+	Findings    []c36ConcFinding `json:"findings"`
+	Errors      []string         `json:"errors"`
+	Done        bool             `json:"done"`
+}
+
+// c36ConcChildMain runs concurrent cases in this (race-detector) process.
+func c36ConcChildMain(specPath string) {
+	vkit.QuietLogs()
+	var spec c36ConcSpec
+	b, err := os.ReadFile(specPath)
+	if err == nil {
+		err = json.Unmarshal(b, &spec)
+	}
+	if err != nil {
+		fmt.Fprintln(os.Stderr, "c36 child: bad spec:", err)
+		os.Exit(3)
+	}
+	_ = os.MkdirAll(spec.Dir, 0o755)
+	_ = os.Setenv("TMPDIR", spec.Dir)
+	out := c36ConcOut{}
+	h, err := c36OpenStore(filepath.Join(spec.Dir, "sql"), "sql", spec.Seed)
+	if err != nil {
+		out.Errors = append(out.Errors, "setup: "+err.Error())
+	} else {
+		orders := map[string]bool{}
+		perSig := map[string]int{}
+		for _, cs := range c36ConcCases(vkit.NewRand(spec.Seed), spec.N, "race-conc") {
+			obs := &c36Obs{events: map[string]int{}}
+			d, err := h.run(cs, obs)
+			out.Cases++
+			if err != nil {
+				if len(out.Errors) < 10 {
+					out.Errors = append(out.Errors, err.Error())
+				}
+				continue
+			}
+			orders[obs.order] = true
+			if obs.overlaps > 0 {
+				out.WithOverlap++
+			}
+			if d != nil {
+				perSig[d.Signature]++
+				if perSig[d.Signature] <= 3 {
+					out.Findings = append(out.Findings, c36ConcFinding{Case: cs, Div: d})
+				}
+			}
+		}
+		out.Orders = len(orders)
+		h.close()
+	}
+	out.Done = true
+	j, _ := json.Marshal(out)
+	_ = os.WriteFile(spec.OutPath, j, 0o644)
+	os.Exit(0)
+}
+
+// c36RaceChild builds the race variant of this engine from the same tree and
+// lets it run a block of concurrent cases; race reports that touch the
+// transaction / close-hook code are recorded in the evidence (the statement is
+// about behaviour, so they are not violations by themselves - DESIGN 5).
+func c36RaceChild(r *vkit.Run, rng *vkit.Rand, failuresBySig map[string]int) {
+	build := exec.Command(filepath.Join(vkit.VerifRoot(), "lib", "build.sh"), "cachetx", "race")
+	build.Stderr = nil
+	pathB, err := build.Output()
+	bin := strings.TrimSpace(string(pathB))
+	if err != nil || bin == "" {
+		r.Inconclusive(fmt.Sprintf("race variant of the engine could not be built for the concurrent block: %v", err))
+		return
+	}
+	dir := r.SubDir("racechild")
+	spec := c36ConcSpec{Seed: rng.Fork("race-child").Uint64(), N: 600, Dir: filepath.Join(dir, "scratch"), OutPath: filepath.Join(dir, "out.json")}
+	sb, _ := json.Marshal(spec)
+	specPath := filepath.Join(dir, "spec.json")
+	_ = os.WriteFile(specPath, sb, 0o644)
+	ctx, cancel := context.WithTimeout(context.Background(), 20*time.Minute)
+	defer cancel()
+	cmd := exec.CommandContext(ctx, bin, "-child", "c36conc", "-spec", specPath)
+	var env []string
+	for _, e := range os.Environ() {
+		if !strings.HasPrefix(e, "GORACE=") {
+			env = append(env, e)
+		}
+	}
+	racePrefix := filepath.Join(dir, "race")
+	cmd.Env = append(env, "GORACE=halt_on_error=0 exitcode=0 log_path="+racePrefix)
+	stderrPath := filepath.Join(dir, "stderr.log")
+	if f, e := os.Create(stderrPath); e == nil {
+		cmd.Stdout, cmd.Stderr = f, f
+		defer f.Close()
+	}
+	runErr := cmd.Run()
+	if ctx.Err() == context.DeadlineExceeded {
+		r.Inconclusive("race-detector child for the concurrent block hit its 20 min watchdog")
+		return
+	}
+	var out c36ConcOut
+	if b, e := os.ReadFile(spec.OutPath); e == nil {
+		_ = json.Unmarshal(b, &out)
+	}
+	if !out.Done {
+		head := ""
+		if b, e := os.ReadFile(stderrPath); e == nil {
+			head, _ = crashFrames(string(b))
+		}
+		r.Inconclusive(fmt.Sprintf("race-detector child for the concurrent block died (%v) %s", runErr, head))
+		return
+	}
+	for _, e := range out.Errors {
+		r.Inconclusive("race-detector child: " + e)
+	}
+	r.Count("race_child_concurrent_cases", int64(out.Cases))
+	r.Count("race_child_cases_with_overlap", int64(out.WithOverlap))
+	r.Count("race_child_distinct_orders", int64(out.Orders))
+	if out.Cases > 0 && out.WithOverlap == 0 {
+		r.Inconclusive("race-detector child observed no overlapping reader events")
+	}
+	for _, f := range out.Findings {
+		failuresBySig[f.Div.Signature]++
+		r.Count("divergent_cases", 1)
+		r.Violation(f.Div.Signature, "[race build] "+f.Div.What, map[string]any{"case": f.Case, "divergence": f.Div})
+	}
+	reps := readRaceLogs(racePrefix + ".*")
+	seen := map[string]int{}
+	var list []map[string]any
+	inTx := 0
+	for _, rep := range reps {
+		k := rep.dedupKey()
+		seen[k]++
+		if seen[k] > 1 {
+			continue
+		}
+		touches := false
+		for _, a := range rep.Accesses {
+			for _, fr := range a {
+				if strings.Contains(fr.File, "/internal/storage/database/tx.go") || strings.Contains(fr.File, "/internal/ioutils/with_close_hook.go") {
+					touches = true
+				}
+			}
+		}
+		if touches {
+			inTx++
+		}
+		list = append(list, map[string]any{"frames": k, "touches_tx_readclosers": touches, "summary": rep.summary()})
+	}
+	r.Count("race_reports_total", int64(len(reps)))
+	r.Count("race_reports_distinct", int64(len(seen)))
+	r.Count("race_reports_touching_tx_readclosers", int64(inTx))
+	if len(list) > 0 {
+		r.SetExtra("race_reports", list)
+	}
 }
